@@ -81,3 +81,41 @@ package atree
 //@        old(as(m.root, *MapDataSlab).extraData != nil && 14 + elsSize(as(m.root, *MapDataSlab).elements) <= maxInlineSize)
 //@   ensures m.root == old(m.root)
 //@   modifies as(m.root, *MapDataSlab).header, as(m.root, *MapDataSlab).inlined, ghost.sto, ghost.stored, ghost.touched, alloc
+
+//@ # ---- stale handles on the map side (C02, C11): the updater closure re-validates the value stored under the key before writing.
+//@ # mcur(m, key): the value storable currently stored under key (what OrderedMap.get returns), as a function of map and key
+//@ ghost mcur : fn(m ref, key Value) ref
+//@ ghost mcurErr : fn(m ref, key Value) int
+//@ ghost vidEq : fn(vid ValueID, sid SlabID) bool
+//@ ghost unwrapS : fn(s Storable) ref
+
+//@ func (m *OrderedMap) get(comparator, hip, key) (k, v, err)  serves C02
+//@   trusted "lookup result abstracted as mcur(m, key) for the closure contract below; the lookup path itself is covered by the slab-level contracts"
+//@   ensures err == nil ==> v == mcur(m, key) && mcurErr(m, key) == 0
+//@   ensures err != nil ==> mcurErr(m, key) != 0 && (isKeyNotFound(err) == (mcurErr(m, key) == 1))
+//@   modifies alloc
+
+//@ func (vid ValueID) equal(sid) (r)  serves C11
+//@   trusted "byte-wise comparison of a value id with a slab id, abstracted as vidEq"
+//@   ensures r == vidEq(vid, sid)
+//@   pure
+
+//@ func unwrapStorable(s) (r)  serves C11
+//@   ensures !is(s, WrapperStorable) ==> r == s
+//@   pure
+
+//@ pred mapParentUntouched() = sto == old(sto) && touched == old(touched) && stored == old(stored) &&
+//@      heapeq(MapDataSlab.all) && heapeq(MapMetaDataSlab.all) && heapeq(OrderedMap.root) && heapeq(hkeyElements.all) && heapeq(singleElements.all) &&
+//@      heapeq(singleElement.all) && heapeq(inlineCollisionGroup.all) && heapeq(externalCollisionGroup.all)
+
+//@ # Free variables of the closure: m (parent map), c (child notifier), vid, comparator, hip, key, child, maxInlineSize.
+//@ func OrderedMap.setCallbackWithChild#1() (found, err)  serves C02 C10 C11
+//@   requires m != nil && c != nil && m.Storage != nil && m.root != nil && m.digesterBuilder != nil && comparator != nil && hip != nil && key != nil && child != nil
+//@   ensures[C10] !old(inlinedC(c)) && !old(inlinableC(c, maxInlineSize)) ==> found && err == nil && mapParentUntouched()
+//@   ensures[C11] (old(inlinedC(c)) || old(inlinableC(c, maxInlineSize))) && mcurErr(m, key) == 1 ==> !found && err == nil && mapParentUntouched()
+//@   ensures[C02 C11] (old(inlinedC(c)) || old(inlinableC(c, maxInlineSize))) && mcurErr(m, key) == 0 && !is(mcur(m, key), WrapperStorable) &&
+//@        is(mcur(m, key), Slab) && !is(mcur(m, key), SlabIDStorable) && !vidEq(vid, old(sid(mcur(m, key)))) ==> !found && err == nil && mapParentUntouched()
+//@   ensures[C02 C11] (old(inlinedC(c)) || old(inlinableC(c, maxInlineSize))) && mcurErr(m, key) == 0 && !is(mcur(m, key), WrapperStorable) &&
+//@        !is(mcur(m, key), Slab) && !is(mcur(m, key), SlabIDStorable) ==> !found && err == nil && mapParentUntouched()
+//@   ensures[C11] !found && err == nil ==> mapParentUntouched()
+//@   modifies heap, ghost.sto, ghost.stored, ghost.touched, ghost.notified, alloc
